@@ -692,3 +692,150 @@ func init() {
 	commands["clientreplay"] = cmdClientReplay
 	commands["clientconnect"] = cmdClientConnect
 }
+
+// ---------------------------------------------------------------- C20: Client.Connect over histories (ClientConn specification)
+
+type ccStep struct {
+	A      string `json:"a"`
+	Answer string `json:"answer"`
+	Want   string `json:"want"`
+}
+
+// clientconnhist: every input line is a history of connect / disconnect / serverdrop steps of ONE client identifier
+func cmdClientConnHist(a Args) {
+	res := newResult()
+	answers := map[string][]byte{"code0": {0x20, 2, 0, 0}, "code0-sp": {0x20, 2, 1, 0}, "code4": {0x20, 2, 0, 4}, "malformed-code9": {0x20, 2, 0, 9}, "closed": nil}
+	err := readLines(a, func(line []byte) error {
+		var steps []ccStep
+		if err := json.Unmarshal(line, &steps); err != nil {
+			return err
+		}
+		res.Evaluations++
+		cid := fmt.Sprintf("vch%dx%d", time.Now().UnixNano()%100000, atomic.AddUint64(&clientSeq, 1))
+		base, _ := libraryGoroutines()
+		var cl *service.Client
+		var srvConn net.Conn
+		fail := func(i int, what string) {
+			res.mismatch(Mismatch{What: fmt.Sprintf("step %d %s: %s", i, steps[i].A, what), Tag: "C20", Replay: map[string]interface{}{"history": steps}})
+		}
+		settled := func() (int, string) {
+			n, first := 0, ""
+			for k := 0; k < 400; k++ {
+				n, first = libraryGoroutines()
+				if n <= base {
+					return 0, ""
+				}
+				time.Sleep(5 * time.Millisecond)
+			}
+			return n - base, first
+		}
+	hist:
+		for i, st := range steps {
+			res.Steps++
+			switch st.A {
+			case "connect":
+				ln, err := net.Listen("tcp", "127.0.0.1:0")
+				if err != nil {
+					fatal("listen: %v", err)
+				}
+				accepted := make(chan net.Conn, 1)
+				ans := answers[st.Answer]
+				go func() {
+					conn, err := ln.Accept()
+					if err != nil {
+						accepted <- nil
+						return
+					}
+					readPkt(conn, 2*time.Second)
+					if ans != nil {
+						conn.Write(ans)
+					}
+					if st.Want != "ok" {
+						time.Sleep(10 * time.Millisecond)
+						conn.Close()
+						accepted <- nil
+						return
+					}
+					accepted <- conn
+				}()
+				cm := message.NewConnectMessage()
+				cm.SetVersion(4)
+				cm.SetCleanSession(true)
+				cm.SetClientID([]byte(cid))
+				cl = &service.Client{ConnectTimeout: 1}
+				got, detail := "ok", ""
+				func() {
+					defer func() {
+						if p := recover(); p != nil {
+							got, detail = "panic", fmt.Sprint(p)
+						}
+					}()
+					if err := cl.Connect("tcp://"+ln.Addr().String(), cm); err != nil {
+						got, detail = "error", err.Error()
+						if code, ok := err.(message.ConnackCode); ok {
+							got = fmt.Sprintf("code%d", int(code))
+						}
+					}
+				}()
+				select {
+				case srvConn = <-accepted:
+				case <-time.After(3 * time.Second):
+					srvConn = nil
+				}
+				ln.Close()
+				if got != st.Want {
+					fail(i, fmt.Sprintf("Client.Connect (client identifier used before in this history: %v) against CONNACK %s returned %s (%s), specification %s", i > 0, st.Answer, got, short(detail, 120), st.Want))
+					if srvConn != nil {
+						srvConn.Close()
+					}
+					break hist
+				}
+				if got != "ok" {
+					if n, first := settled(); n > 0 {
+						fail(i, fmt.Sprintf("%d goroutines of the library left behind after the refused Connect, e.g. %s", n, short(first, 200)))
+						break hist
+					}
+				}
+			case "disconnect":
+				cl.Disconnect()
+				if srvConn != nil {
+					srvConn.Close()
+				}
+				if n, first := settled(); n > 0 {
+					fail(i, fmt.Sprintf("%d goroutines of the library left behind after Disconnect, e.g. %s", n, short(first, 200)))
+					break hist
+				}
+			case "serverdrop":
+				if srvConn != nil {
+					srvConn.Close()
+				}
+				// the client notices by itself; nothing of it stays behind
+				if n, first := settled(); n > 0 {
+					fail(i, fmt.Sprintf("%d goroutines of the library left behind after the server closed the connection, e.g. %s", n, short(first, 200)))
+					break hist
+				}
+			}
+		}
+		// a connection still up at the end of the history
+		if cl != nil && len(steps) > 0 && steps[len(steps)-1].A == "connect" && steps[len(steps)-1].Want == "ok" {
+			func() {
+				defer func() { recover() }()
+				cl.Disconnect()
+			}()
+			if srvConn != nil {
+				srvConn.Close()
+			}
+			settled()
+		}
+		if len(res.Samples) < 2 {
+			res.Samples = append(res.Samples, steps)
+		}
+		return nil
+	})
+	if err != nil {
+		fatal("clientconnhist: %v", err)
+	}
+	res.emit()
+}
+
+func init() { commands["clientconnhist"] = cmdClientConnHist }
